@@ -15,7 +15,7 @@ KEY_POOLS = {
     "kebab": ["user-id", "created-at", "x-value", "item-list"],
     "keyword": ["class", "list", "type", "from", "def", "dict", "date", "schema", "None", "pk"],
     "unicode": ["имя", "größe", "naïve", "数", "ключ"],
-    "odd": ["1st", "9lives", "a b", "a.b", "_private", "__dunder__", "$ref", "@id", "x!"],
+    "odd": ["1st", "9lives", "a b", "a.b", "_private", "__dunder__", "$ref", "@id", "x!", "0day", "00x", "2nd_", "_0"],
 }
 SCALAR_KINDS = ["int", "float", "bool", "null", "str_plain", "str_long", "str_int", "str_float", "str_bool",
                 "str_date", "str_datetime", "str_time"]
@@ -83,8 +83,23 @@ class Gen:
             kinds.append(rng.choice(k["scalar_kinds"]))
         return ["s", kinds]
 
+    def _make_chain_shapes(self):
+        """A non-transitive similarity chain: shape i has the keys window[i : i + w]; neighbours are similar under the
+        percent / number comparators, shapes two steps apart are not.  A root shape refers to every member through its
+        own (possibly missing) field, so registration order follows the order in which samples introduce the fields."""
+        rng = self.rng
+        length, w = rng.randint(5, 7), rng.choice([5, 6, 10])
+        keys = [f"k{j:02d}" for j in range(length + w)]
+        for i in range(length):
+            self.shapes.append([[key, ["s", [rng.choice(["int", "str_long", "bool"])]], False] for key in keys[i:i + w]])
+        root = [[f"member_{chr(97 + i)}", [rng.choice(["obj", "obj", "list_obj"]), i], True] for i in range(length)]
+        rng.shuffle(root)
+        self.shapes.append(root)
+
     def _make_shapes(self):
         rng, k = self.rng, self.k
+        if k.get("chain"):
+            return self._make_chain_shapes()
         for sid in range(k["n_shapes"]):
             if self.shapes and rng.random() < k["p_variant"]:
                 # variant of an existing shape: k-of-n shared keys -> comparator thresholds
@@ -170,6 +185,10 @@ class Gen:
         if not out:
             key, spec, _ = self.shapes[sid][0]
             out[key] = scalar(rng, "int")
+        if k.get("p_shuffle_keys") and rng.random() < k["p_shuffle_keys"]:
+            items = list(out.items())
+            rng.shuffle(items)
+            out = dict(items)
         return out
 
     def models(self):
@@ -242,7 +261,11 @@ def draw_knobs(rng: random.Random, **fixed):
         "p_datetime": rng.choice([0.0, 0.0, 0.5]),
         "frameworks": [f for f in ALL_FRAMEWORKS if rng.random() < 0.6] or ["base"],
         "structures": rng.choice([["flat"], ["nested"], ["flat", "nested"]]),
+        "chain": rng.random() < 0.08,
+        "p_shuffle_keys": rng.choice([0.0, 0.0, 0.3, 1.0]),
     }
+    if k["chain"]:
+        k.update(n_models=1, depth=2, samples=max(3, k["samples"]), p_null=0.0)
     k.update(fixed)
     return k
 
